@@ -351,6 +351,18 @@ impl Default for BuildOpts {
 
 /// Build world + dispatcher for a scenario (outside any simulation).
 pub fn build(sc: &Scenario, opts: &BuildOpts) -> Built {
+    // Engine R: with fewer workers than parked systems, *which* queued group a free worker of
+    // the real pool picks next is rayon's internal choice and would show in the event log. Give
+    // the real pool a worker for every system (the stub pool of engine S is the one that
+    // explores small pools; there the choice belongs to the scheduler).
+    #[cfg(feature = "real")]
+    let sc = &{
+        let mut s = sc.clone();
+        let need = crate::plan::count_systems(&s.regs) + 2;
+        s.pool.supplied = s.pool.supplied.map(|n| n.max(need));
+        s.pool.machine = s.pool.machine.max(need);
+        s
+    };
     crate::hashseed::set(sc.hash_seed);
     #[cfg(feature = "sim")]
     rayon::set_machine_size(sc.pool.machine);
